@@ -129,12 +129,12 @@ func (b btProg) FinalLines() (out []string) {
 	return
 }
 func (b btProg) Mk(setupOut *[]string) func(y func(string)) conc.System { return b.p.MkSys(setupOut) }
-func (b btProg) Final(sys conc.System) []string                          { return bt.ExecFinal(sys, b.p.FinalReads()) }
-func (b btProg) Post(lines []string) []string                            { return lines }
-func (b btProg) Opts() conc.Opts                                         { return conc.Opts{N: len(b.p.Ops), Cls: bt.ConcClassify} }
-func (b btProg) Same(impl, model string) bool { return impl == model }
-func (b btProg) Strict() bool                  { return true }
-func (b btProg) Sched() []int                                            { return b.p.Sched }
+func (b btProg) Final(sys conc.System) []string                         { return bt.ExecFinal(sys, b.p.FinalReads()) }
+func (b btProg) Post(lines []string) []string                           { return lines }
+func (b btProg) Opts() conc.Opts                                        { return conc.Opts{N: len(b.p.Ops), Cls: bt.ConcClassify} }
+func (b btProg) Same(impl, model string) bool                           { return impl == model }
+func (b btProg) Strict() bool                                           { return true }
+func (b btProg) Sched() []int                                           { return b.p.Sched }
 func (b btProg) WithSched(s []int) json.RawMessage {
 	q := *b.p
 	q.Sched = s
